@@ -2,8 +2,8 @@ SPECIFICATION Spec
 CONSTANTS
   Deviation = "none"
   FlagSets <- AllFlags
-  TagLists <- McQuick
+  TagLists <- McQuickAdj
   Segs <- McSegs
-INVARIANTS Layout RefDec Prefix Final HeaderOk Framing
+INVARIANTS Layout RefDec Prefix Final HeaderOk Framing InputsUntouched NoLoss
 PROPERTY Monotone
 CHECK_DEADLOCK TRUE
